@@ -964,6 +964,7 @@ pub fn fuzz_raw(data: &[u8]) {
     if data.is_empty() {
         return;
     }
+    fuzz_init();
     let c = RawCase { target: data[0], bytes: data[1..].to_vec() };
     if let Err(f) = run_case_strict(raw_run, &c) {
         let dir = std::path::Path::new(VERIF_DIR).join("failures").join("C17");
@@ -972,7 +973,8 @@ pub fn fuzz_raw(data: &[u8]) {
         let rf = ReplayFile { property: "C17".into(), sub: "serde/raw-bytes".into(), sig: f.sig.clone(), msg: f.msg.clone(), case: serde_json::to_value(&c).unwrap() };
         let _ = std::fs::write(&path, serde_json::to_string_pretty(&rf).unwrap());
         eprintln!("VIOLATION property=C17 replay={}", path.display());
-        panic!("{}: {}", f.sig, f.msg);
+        eprintln!("  signature: {}\n  {}", f.sig, f.msg);
+        std::process::abort();
     }
 }
 
